@@ -1,13 +1,18 @@
 package main
 
 import (
+	"context"
 	"fmt"
+	"os"
+	"path/filepath"
 	"math/rand"
 	"sort"
 	"strings"
 	"time"
 
+	"github.com/inspirer/textmapper/compiler"
 	"github.com/inspirer/textmapper/gen"
+	"github.com/inspirer/textmapper/grammar"
 	"github.com/inspirer/textmapper/lex"
 	jsonlex "github.com/inspirer/textmapper/parsers/json"
 	jslex "github.com/inspirer/textmapper/parsers/js"
@@ -262,6 +267,14 @@ func lexerGen(rng *rand.Rand, n int, kind string) {
 		}
 		if _, ok := cfgs[j.pkg]; !ok {
 			cfgs[j.pkg] = lxConfig(p, g, stats)
+			if kind == "c11.lexer" {
+				// the rune class tables this lexer was generated with
+				sx.Case("c11.maps", symbolMapStr(p.g.Lexer.Tables), runeTablesStr(p.g.Lexer.Tables))
+			}
+			if kind == "c12.lexer" {
+				// hypothesis of the C12 theorems, evaluated on the real tables of this generated lexer
+				sx.Case("c12.wf", sx.List(sx.Str(g.name), lxLexerStr(p.g, g.tokenLine, g.tokenColumn, stats), "0"), "(1 1)")
+			}
 		}
 		sx.Case(kind, sx.List(cfgs[j.pkg], sx.Int(j.sc), sx.Bytes(j.text)), answers[j.first])
 	}
@@ -273,7 +286,12 @@ func lexerGen(rng *rand.Rand, n int, kind string) {
 // lxConfig: (lexer rules); lexer = (tables (ruleToken) (space) invalid (kw...) tokenLine tokenColumn);
 // rules = ((dump token prec (scs) space) ...) for the regex-level specification
 func lxConfig(p *genPkg, g *lxGrammar, stats map[string]int) string {
-	lx := p.g.Lexer
+	return lxConfigRules(p, g, lxLexerStr(p.g, g.tokenLine, g.tokenColumn, stats))
+}
+
+// lxLexerStr: (tables (ruleToken) (space) invalid (kw...) tokenLine tokenColumn) of a compiled grammar
+func lxLexerStr(gr *grammar.Grammar, tokenLine, tokenColumn bool, stats map[string]int) string {
+	lx := gr.Lexer
 	var kws []string
 	for _, ca := range lx.ClassActions {
 		mask, cases := gen.VerifStringSwitch(ca.Custom)
@@ -293,10 +311,13 @@ func lxConfig(p *genPkg, g *lxGrammar, stats map[string]int) string {
 	if lx.Tables.LastMapEntry().Start > 2048 {
 		stats["compressed_rune_map"]++
 	}
-	space := p.g.SpaceActions()
+	space := gr.SpaceActions()
 	sort.Ints(space)
-	lexer := sx.List(tablesStr(lx.Tables), sx.Ints(lx.RuleToken), sx.Ints(space), sx.Int(lx.InvalidToken), sx.List(kws...),
-		sx.Bool(g.tokenLine), sx.Bool(g.tokenColumn))
+	return sx.List(tablesStr(lx.Tables), sx.Ints(lx.RuleToken), sx.Ints(space), sx.Int(lx.InvalidToken), sx.List(kws...),
+		sx.Bool(tokenLine), sx.Bool(tokenColumn))
+}
+
+func lxConfigRules(p *genPkg, g *lxGrammar, lexer string) string {
 	symIndex := map[string]int{}
 	for i, s := range p.g.Syms {
 		symIndex[s.Name] = i
@@ -393,8 +414,38 @@ var shippedWords = map[string][]string{
 	"js":     {"var", "a", "=", "1", ";", "/re/g", "/", "/*c*/", "/*", "//c\n", "\"s\"", "'s", "`t${a}`", "`t", "${", "}", "{", "(", ")", "<div>", "</", ">", "=>", "0x1f", "1n", "1.e3", ".5", "\\u0041", "#p", "@", "é", "\u2028", " ", "\n", "\r\n", "<!--", "-->", "?.", "**=", ">>>=", "#!/bin\n"},
 }
 
+// c12ShippedWf compiles the shipped grammars with the current tree and submits their lexer tables to wf_lexer_tables.
+func c12ShippedWf(stats map[string]int) {
+	repo := os.Getenv("VERIF_REPO")
+	if repo == "" {
+		repo = "/repo"
+	}
+	for _, name := range []string{"json/json.tm", "simple/simple.tm", "test/test.tm", "tm/textmapper.tm", "js/js.tm"} {
+		path := filepath.Join(repo, "parsers", name)
+		content, err := os.ReadFile(path)
+		if err != nil {
+			sx.Case("c12.wf", sx.List(sx.Str(name), "()", "0"), "unreadable")
+			continue
+		}
+		g, err := compiler.Compile(context.Background(), path, string(content), compiler.Params{CheckOnly: true})
+		if err != nil || g == nil || g.Lexer == nil {
+			sx.Case("c12.wf", sx.List(sx.Str(name), "()", "0"), "nocompile")
+			continue
+		}
+		stats["shipped_tables"]++
+		acts := false
+		for _, a := range g.Lexer.Actions {
+			if strings.TrimSpace(a.Code) != "" {
+				acts = true
+			}
+		}
+		sx.Case("c12.wf", sx.List(sx.Str(name), lxLexerStr(g, g.Options.TokenLine, g.Options.TokenColumn, stats), sx.Bool(acts)), "(1 1)")
+	}
+}
+
 func c12Shipped(rng *rand.Rand, n int, _ []string) {
 	stats := map[string]int{}
+	c12ShippedWf(stats)
 	for i := 0; i < n; i++ {
 		sl := shipped[rng.Intn(len(shipped))]
 		words := shippedWords[sl.name]
@@ -458,6 +509,80 @@ func c12Shipped(rng *rand.Rand, n int, _ []string) {
 			hasLine = 0
 		}
 		sx.Case("c12.shipped", sx.List(sx.Str(sl.name), sx.Int(hasLine), sx.Bytes(b)), out)
+	}
+	for k, v := range stats {
+		sx.Stat(k, v)
+	}
+}
+
+// ---------------------------------------------------------------- rune class tables (C11 rune_class_lookup)
+
+func init() {
+	commands["c11.maps"] = c11Maps
+}
+
+// runeTablesStr renders what go_lexer_tables.go.tmpl emits for the symbol map of t:
+// ((tmRuneClass...) ((lo hi default (vals...))...) useMap lastTarget)
+func runeTablesStr(t *lex.Tables) string {
+	last := t.LastMapEntry()
+	if last.Start > 2048 {
+		var es []string
+		for _, e := range t.CompressedMap(256) {
+			es = append(es, sx.List(sx.Int(int(e.Lo)), sx.Int(int(e.Hi)), sx.Int(e.DefaultVal), sx.Ints(e.Vals)))
+		}
+		return sx.List(sx.Ints(t.SymbolArr(256)), sx.List(es...), "1", sx.Int(int(last.Target)))
+	}
+	return sx.List(sx.Ints(t.SymbolArr(0)), "()", "0", sx.Int(int(last.Target)))
+}
+
+func symbolMapStr(t *lex.Tables) string {
+	sm := make([]string, len(t.SymbolMap))
+	for i, e := range t.SymbolMap {
+		sm[i] = sx.List(sx.Int(int(e.Start)), sx.Int(int(e.Target)))
+	}
+	return sx.List(sm...)
+}
+
+func c11Maps(rng *rand.Rand, n int, _ []string) {
+	stats := map[string]int{}
+	for i := 0; i < n; i++ {
+		t := &lex.Tables{}
+		nsym := 2 + rng.Intn(12)
+		pos := 0
+		// segment lengths: many short ones (exercise the strike / count > 8 rules), some long
+		maxPos := []int{60, 300, 3000, 70000, 0x10ffff}[rng.Intn(5)]
+		segs := 1 + rng.Intn(40)
+		for s := 0; s < segs && pos <= maxPos; s++ {
+			tg := 1 + rng.Intn(nsym)
+			if rng.Intn(3) == 0 {
+				tg = 1 // the usual default class
+			}
+			if k := len(t.SymbolMap); k > 0 && int(t.SymbolMap[k-1].Target) == tg {
+				tg = tg%nsym + 1
+			}
+			t.SymbolMap = append(t.SymbolMap, lex.RangeEntry{Start: rune(pos), Target: lex.Sym(tg)})
+			switch rng.Intn(6) {
+			case 0:
+				pos += 1
+			case 1:
+				pos += 1 + rng.Intn(4)
+			case 2:
+				pos += 5 + rng.Intn(8)
+			case 3:
+				pos += 1 + rng.Intn(40)
+			case 4:
+				pos += 1 + rng.Intn(maxPos/8+1)
+			default:
+				pos += 1 + rng.Intn(300)
+			}
+		}
+		t.NumSymbols = nsym + 1
+		if t.LastMapEntry().Start > 2048 {
+			stats["compressed"]++
+		} else {
+			stats["plain_array"]++
+		}
+		sx.Case("c11.maps", symbolMapStr(t), runeTablesStr(t))
 	}
 	for k, v := range stats {
 		sx.Stat(k, v)
